@@ -68,6 +68,10 @@ class Ctx:
                 continue
             target = self.objs[e[1]]
             lst = [self.objs[j] for j in e[2]]
+            # the argument may be the scheduler's own live .doers list or a lazy iterable over it (4th element)
+            form = e[3] if len(e) > 3 else None
+            if form and [id(o) for o in target.doers] == [id(o) for o in lst]:
+                lst = target.doers if form == "live" else (d for d in target.doers)
             inv = {id(o): i for i, o in self.objs.items()}
             rec = {"kind": e[0], "target": e[1], "ids": list(e[2]), "caller": caller, "start": len(self.log),
                    "before": [inv.get(id(o), -1) for o in target.doers]}
@@ -589,7 +593,7 @@ def gen_static(rng, *, n_leaves=None, nest_depth=2, faults=True, tocks="any", al
         limit = rng.choice([0.0, tock, 2 * tock, 2.5 * tock, 0.4 * tock, 3 * tock, 1.0, 0.7])
         if rng.random() < 0.12:
             limit = -limit          # a negative limit is legal: the Doist takes its absolute value
-    return {"tock": tock, "limit": limit, "tyme": rng.choice([0.0, 0.0, 1.0, 10.5, 0.1]), "doers": doers, "defs": defs, "mode": "do"}
+    return {"tock": tock, "limit": limit, "tyme": rng.choice([0.0, 0.0, 1.0, 10.5, 0.1, -2.0, -0.75]), "doers": doers, "defs": defs, "mode": "do"}
 
 
 def all_scheds(prog):
@@ -798,7 +802,7 @@ def add_reruns(rng, p, n=None):
     p["again"] = []
     for _ in range(k):
         p["again"].append({"limit": rng.choice([None, None, p["tock"], 2.5 * p["tock"], 0.7, -2 * p["tock"]]),
-                           "tyme": rng.choice([None, None, 0.0, 3.0])})
+                           "tyme": rng.choice([None, None, 0.0, 3.0, -2.0])})
     if rng.random() < 0.5:
         p["ctor"] = True
     return p
@@ -968,5 +972,27 @@ def gen_manual(rng, n, thens=("exit", "do", "do")):
         if not p["limit"]:
             p["limit"] = 3 * p["tock"]
         p["manual"] = {"recurs": rng.randint(0, 4), "then": rng.choice(list(thens))}
+        out.append(p)
+    return out
+
+
+def gen_remove_live(rng, n):
+    """One remove() whose argument is the target scheduler's own live .doers list (or a generator over it)."""
+    out = []
+    for _ in range(n):
+        p = gen_static(rng, n_leaves=rng.randint(3, 6), nest_depth=1, faults=False, tocks="dyadic", limit_p=1.0)
+        if not p["limit"]:
+            p["limit"] = 4 * p["tock"]
+        p["limit"] = abs(p["limit"])
+        targets = [(0, list(p["doers"]))] + [(int(i), list(d["kids"])) for i, d in p["defs"].items() if d["kind"] == "nest"]
+        t, members = rng.choice([x for x in targets if len(x[1]) >= 2] or targets[:1])
+        if t != 0:
+            p["defs"][str(t)]["always"] = True
+        callers = [m for m in members if p["defs"][str(m)]["kind"] != "nest" and len(p["defs"][str(m)]["script"]) >= 2]
+        if not callers:
+            continue
+        c = rng.choice(callers)
+        sc_ = p["defs"][str(c)]["script"]
+        sc_[rng.randint(1, len(sc_) - 1)]["es"].append(["rem", t, members, rng.choice(["live", "gen"])])
         out.append(p)
     return out
